@@ -185,6 +185,7 @@ func RunCheck(verifDir, repoDir, prop, tier string, seed int64, only string, ver
 		rep  *Report
 	}
 	var jobs []*job
+	redirectSet := map[string]bool{}
 	nativeSampled := 0
 	for _, hs := range spec.Harnesses {
 		if only != "" && !strings.Contains(hs.Func, only) {
@@ -219,6 +220,12 @@ func RunCheck(verifDir, repoDir, prop, tier string, seed int64, only string, ver
 			opts.SampleModels = 1
 		}
 		jobs = append(jobs, &job{hs: hs, cfg: tc.Config, opts: opts})
+		for from, to := range tc.Config.Redirects {
+			if to == "" {
+				to = "(no-op)"
+			}
+			redirectSet["callee "+from+" replaced by "+to] = true
+		}
 	}
 	nHarness = len(jobs)
 	{
@@ -386,6 +393,7 @@ func RunCheck(verifDir, repoDir, prop, tier string, seed int64, only string, ver
 		out("ERROR: no harness selected for %s tier %s", prop, tier)
 		return 2
 	}
+	redirectList := keys(redirectSet)
 	// functions encoded (repository + dgraph functions executed symbolically)
 	var fl []string
 	for f, n := range funcs {
@@ -419,7 +427,8 @@ func RunCheck(verifDir, repoDir, prop, tier string, seed int64, only string, ver
 			"solver_s":                      solverS,
 			"solver":                        "z3 4.8.12 (z3 -in, one process per worker, push/pop)",
 			"load_and_ssa_build_s":          loadS,
-			"stubs":                         spec.Stubs,
+			"stubs":                         append(append([]string{}, spec.Stubs...), redirectList...),
+			"decided_by":                    "data (opaque payloads, numbers, strings) are SMT terms and every branch or assertion on them is a solver query; harness choices, scheduling deviations, select cases and map orders are decisions enumerated exhaustively within the stated bounds by re-execution of the real SSA (a harness whose variables are all of the second kind reports 0 queries)",
 			"outside_claim":                 spec.Outside,
 			"known_findings_hit":            keys(knownHit),
 		},
